@@ -237,6 +237,31 @@ func hazards() []hazard {
 	hs[len(hs)-1].Files["one/util/u.go"] = "package util\n\nconst One = 1\n"
 	unimp("unimported-package-generic-type", "hq", "hq", "box", "box", "type Box[T any] struct{ V T }\n\ntype X struct{ N int }", "box.Box[box.X]", "", "")
 	unimp("unimported-package-named-like-file-ident", "hn", "hn", "cfg", "cfg", "type C struct{ N int }", "cfg.C", "", "var cfg = 3\n\nvar _ = cfg\n\n")
+	// The same package imported twice under different names, or blank: whatever
+	// name the generated code picks for it must be one the file binds, and must
+	// be the same in every process.
+	add("double-import:time", "accept",
+		"import (\n\t\"context\"\n\t\"time\"\n\tstdtime \"time\"\n\n\t\"go.uber.org/cff\"\n)\n\nvar _ = time.Second + stdtime.Second\n\nfunc Run(ctx context.Context, n int) (string, error) {\n"+flow("cff")+"}\n", nil)
+	add("double-import:context", "accept",
+		"import (\n\t\"context\"\n\tstdctx \"context\"\n\n\t\"go.uber.org/cff\"\n)\n\nvar _ = stdctx.Background\n\nfunc Run(ctx context.Context, n int) (string, error) {\n"+flow("cff")+"}\n", nil)
+	add("double-import:cff", "accept",
+		"import (\n\t\"context\"\n\n\t\"go.uber.org/cff\"\n\tflows \"go.uber.org/cff\"\n)\n\nvar _ = flows.NopEmitter\n\nfunc Run(ctx context.Context, n int) (string, error) {\n"+flow("cff")+"}\n", nil)
+	add("double-import:type-package", "accept",
+		"import (\n\t\"context\"\n\n\t\"go.uber.org/cff\"\n\tapia \"scratch/HZ/api\"\n\tapib \"scratch/HZ/api\"\n)\n\nfunc Run(ctx context.Context, n int) (apia.Pod, error) {\n\tvar out apib.Pod\n\terr := cff.Flow(ctx,\n\t\tcff.Params(n),\n\t\tcff.Results(&out),\n\t\tcff.Task(func(i int) (apia.Spec, error) { return apib.Spec{N: i}, nil }),\n\t\tcff.Task(func(s apib.Spec) apia.Pod { return apia.Pod{S: s} }),\n\t)\n\treturn out, err\n}\n",
+		map[string]string{"api/a.go": "package api\n\ntype Spec struct{ N int }\n\ntype Pod struct{ S Spec }\n"})
+	add("dot-import:type-package", "accept",
+		"import (\n\t\"context\"\n\n\t\"go.uber.org/cff\"\n\t. \"scratch/HZ/api\"\n)\n\nfunc Run(ctx context.Context, n int) (Pod, error) {\n\tvar out Pod\n\terr := cff.Flow(ctx,\n\t\tcff.Params(n),\n\t\tcff.Results(&out),\n\t\tcff.Task(func(i int) (Spec, error) { return Spec{N: i}, nil }),\n\t\tcff.Task(func(s Spec) Pod { return Pod{S: s} }),\n\t)\n\treturn out, err\n}\n",
+		map[string]string{"api/a.go": "package api\n\ntype Spec struct{ N int }\n\ntype Pod struct{ S Spec }\n"})
+	add("dot-import:time", "accept",
+		"import (\n\t\"context\"\n\t. \"time\"\n\n\t\"go.uber.org/cff\"\n)\n\nvar _ = Second\n\nfunc Run(ctx context.Context, n int) (string, error) {\n"+flow("cff")+"}\n", nil)
+	add("blank-import:type-package-reached-through-function", "accept",
+		"import (\n\t\"context\"\n\n\t\"go.uber.org/cff\"\n\t\"scratch/HZ/ha\"\n\t_ \"scratch/HZ/hb\"\n)\n\nfunc Run(ctx context.Context, n int) (string, error) {\n\tvar out string\n\terr := cff.Flow(ctx,\n\t\tcff.Params(n),\n\t\tcff.Results(&out),\n\t\tcff.Task(ha.Make),\n\t\tcff.Task(ha.Show),\n\t)\n\treturn out, err\n}\n",
+		map[string]string{"ha/a.go": "package ha\n\nimport \"scratch/HZ/hb\"\n\nfunc Make(i int) hb.X { return hb.X{N: i} }\n\nfunc Show(x hb.X) string { return x.String() }\n",
+			"hb/b.go": "package hb\n\nimport \"fmt\"\n\ntype X struct{ N int }\n\nfunc (x X) String() string { return fmt.Sprint(x.N) }\n"})
+	add("blank-import:time", "accept",
+		"import (\n\t\"context\"\n\t_ \"time\"\n\n\t\"go.uber.org/cff\"\n)\n\nfunc Run(ctx context.Context, n int) (string, error) {\n"+flow("cff")+"}\n", nil)
+	add("blank-import:runtime-debug", "accept",
+		"import (\n\t\"context\"\n\t_ \"runtime/debug\"\n\n\t\"go.uber.org/cff\"\n)\n\nfunc Run(ctx context.Context, n int) (string, error) {\n"+flow("cff")+"}\n", nil)
 	add("unexported-foreign-type", "accept",
 		"import (\n\t\"context\"\n\n\t\"go.uber.org/cff\"\n\t\"scratch/HZ/ext\"\n)\n\nfunc Run(ctx context.Context, n int) (string, error) {\n\tvar out string\n\terr := cff.Flow(ctx,\n\t\tcff.Params(n),\n\t\tcff.Results(&out),\n\t\tcff.Task(ext.MakeX),\n\t\tcff.Task(ext.Show),\n\t)\n\treturn out, err\n}\n",
 		map[string]string{"ext/e.go": "package ext\n\nimport \"fmt\"\n\ntype x struct{ n int }\n\nfunc MakeX(i int) x { return x{i} }\n\nfunc Show(v x) string { return fmt.Sprint(v.n) }\n"})
